@@ -99,9 +99,9 @@ func genHTMLBlock(r *proto.Rand) string {
 // one line: inline HTML that begins while a bracket is open (or not)
 func genBracketHTML(r *proto.Rand) string {
 	toks := []string{"[", "[", "]", "a", " ", "<!--", "-->", "<b>", "</b>", "<a href=\"", "\">", "<span ", ">", "<?", "?>", "<!X", "](a)", "](b.html)", "](\")", "[](a)", "x"}
-	if r.Intn(2) == 0 {
-		return pick(r, []string{"[", "[a ", "x [", "", "[[", "[] ", "\\["}) + pick(r, []string{"<!--", "<a href=\"", "<span title='", "<?", "<!D ", "<b ", "<b>"}) +
-			"](" + pick(r, simpleDests) + ")" + pick(r, []string{"-->", "\">", "'>", "?>", ">", "", "</b>"})
+	if r.Intn(4) != 0 {
+		return pick(r, []string{"[", "[", "[a ", "x [", "", "[[", "[] ", "\\[", "[x](y) [", "`[` ["}) + pick(r, []string{"<!--", "<!-- ", "<a href=\"", "<span title='", "<?", "<!D ", "<b ", "<b>", "<i x=\"", "</b "}) +
+			pick(r, []string{"", "x", " "}) + "](" + pick(r, simpleDests) + pick(r, []string{")", ")", " \"t\")"}) + pick(r, []string{"-->", "-->", "\">", "'>", "?>", ">", "", "</b>", " -->x"})
 	}
 	return soup(r, toks, 3, 7)
 }
